@@ -250,14 +250,47 @@ def keepPage (w : Walker Node) (sp : StackPage Node) (parent : StackPage Node) (
                                 elided := PageLayout.elidedSet parent.elided ci false }
     pushOut { w with stack := parent :: rest } sp
 
+/-- "Store the updated elided_children field into the page." (not for the root page) -/
+def storeElided (sp0 : StackPage Node) : StackPage Node :=
+  if sp0.pageId ≠ [] then { sp0 with page := { sp0.page with elided := sp0.elided } } else sp0
+
+/-- the parent's counter of leaves in child pages when the page `sp` (`plc` leaves inside, `clc` below) is elided -/
+def elideParentCounter (sp parent : StackPage Node) (plc clc : Nat) : WR (StackPage Node) :=
+  match parent.childrenLeaves.or parent.prevChildrenLeaves with
+  | none => .ok parent
+  | some pclc =>
+    let prevPlc := sp.pageLeaves.getD 0
+    let pageDelta : Int := (plc : Int) - (prevPlc : Int)
+    match sp.prevChildrenLeaves with
+    | none => .panic "handle_elision_threshold: prev_children_leaves_counter.unwrap()"
+    | some prevClc =>
+      let childrenDelta : Int := (clc : Int) - (prevClc : Int)
+      let n : Int := (pclc : Int) + pageDelta + childrenDelta
+      if n < 0 then .panic "handle_elision_threshold: try_into().unwrap()"
+      else .ok { parent with childrenLeaves := some n.toNat }
+
+/-- the branch of `handle_elision_threshold` that elides the page -/
+def elidePage (w : Walker Node) (sp parent : StackPage Node) (rest : List (StackPage Node)) (plc clc : Nat) :
+    WR (Walker Node) :=
+  match elideParentCounter sp parent plc clc with
+  | .panic s => .panic s
+  | .err e => .err e
+  | .ok parent =>
+    match childIndexAtLevel sp.pageId (sp.pageId.length - 1) with
+    | none => .panic "handle_elision_threshold: child_index_at_level"
+    | some ci =>
+      let parent := { parent with elided := PageLayout.elidedSet parent.elided ci true }
+      let w := { w with stack := parent :: rest }
+      if w.reconstruction then pushReconstructed w sp
+      else if sp.bucket.isSome then .ok (pushUpdated w { sp with diff := sp.diff.setCleared })
+      else .ok w
+
 /-- `PageWalker::handle_elision_threshold` -/
 def Walker.handleElision (w : Walker Node) : WR (Walker Node) :=
   match w.stack with
   | [] => .ok w
   | sp0 :: below =>
-    -- "Store the updated elided_children field into the page."
-    let sp : StackPage Node :=
-      if sp0.pageId ≠ [] then { sp0 with page := { sp0.page with elided := sp0.elided } } else sp0
+    let sp := storeElided sp0
     let w := { w with stack := below }
     match below with
     | [] => pushOut w sp
@@ -267,33 +300,7 @@ def Walker.handleElision (w : Walker Node) : WR (Walker Node) :=
       | none => keepPage w sp parent rest
       | some clc =>
         let plc := countLeaves H sp.page
-        if plc + clc < PAGE_ELISION_THRESHOLD ∧ ¬ w.inhibitElision then
-          -- the parent's counter of leaves in child pages
-          let parentR : WR (StackPage Node) :=
-            match parent.childrenLeaves.or parent.prevChildrenLeaves with
-            | none => .ok parent
-            | some pclc =>
-              let prevPlc := sp.pageLeaves.getD 0
-              let pageDelta : Int := (plc : Int) - (prevPlc : Int)
-              match sp.prevChildrenLeaves with
-              | none => .panic "handle_elision_threshold: prev_children_leaves_counter.unwrap()"
-              | some prevClc =>
-                let childrenDelta : Int := (clc : Int) - (prevClc : Int)
-                let n : Int := (pclc : Int) + pageDelta + childrenDelta
-                if n < 0 then .panic "handle_elision_threshold: try_into().unwrap()"
-                else .ok { parent with childrenLeaves := some n.toNat }
-          match parentR with
-          | .panic s => .panic s
-          | .err e => .err e
-          | .ok parent =>
-            match childIndexAtLevel sp.pageId (sp.pageId.length - 1) with
-            | none => .panic "handle_elision_threshold: child_index_at_level"
-            | some ci =>
-              let parent := { parent with elided := PageLayout.elidedSet parent.elided ci true }
-              let w := { w with stack := parent :: rest }
-              if w.reconstruction then pushReconstructed w sp
-              else if sp.bucket.isSome then .ok (pushUpdated w { sp with diff := sp.diff.setCleared })
-              else .ok w
+        if plc + clc < PAGE_ELISION_THRESHOLD ∧ ¬ w.inhibitElision then elidePage w sp parent rest plc clc
         else keepPage w sp parent rest
 
 /-! ## moves -/
